@@ -174,7 +174,14 @@ fn direct(ctx: &Ctx, res: &mut PartResult, depth: usize, mask_i: usize, timeout:
                         K::C => r.reg.get_or_create_counter(&key, |c| CounterFn::increment(c, 1)),
                         // a gauge update that leaves the value unchanged
                         K::G => r.reg.get_or_create_gauge(&key, |g| GaugeFn::set(g, 1.0)),
-                        K::H => r.reg.get_or_create_histogram(&key, |h| HistogramFn::record(h, 1.0)),
+                        // both entry points of a histogram, alternately: record and the batched record_many
+                        K::H => {
+                            if ms[mi].gen % 2 == 0 {
+                                r.reg.get_or_create_histogram(&key, |h| HistogramFn::record(h, 1.0))
+                            } else {
+                                r.reg.get_or_create_histogram(&key, |h| HistogramFn::record_many(h, 1.0, 1))
+                            }
+                        }
                     }
                     let m = &mut ms[mi];
                     m.exists = true;
@@ -305,7 +312,11 @@ fn prom(ctx: &Ctx, res: &mut PartResult, depth: usize, mask_i: usize, global_lab
                     touch(1, &mut ms);
                 }
                 POp::Rec => {
-                    rec.register_histogram(&Key::from_name(names[2]), &META).record(1.0);
+                    if ms[2].gen % 2 == 0 {
+                        rec.register_histogram(&Key::from_name(names[2]), &META).record(1.0);
+                    } else {
+                        rec.register_histogram(&Key::from_name(names[2]), &META).record_many(1.0, 1);
+                    }
                     touch(2, &mut ms);
                 }
                 POp::Advance(d) => {
